@@ -62,3 +62,8 @@
 ; dead(i): the value of record i of the iterator's ghost sequence is the deletion marker (defined in
 ; the scan-loop contract through the instances it needs)
 (declare-fun dead (Int) Bool)
+; lastkept(i): index of the last record among the first i that a compaction scan keeps as "previous"
+; (visible at the compaction revision, not expired, not a skipped index record); expired(i): record i
+; is an Event record at or below the timeout revision (defined in the scan-loop contract)
+(declare-fun lastkept (Int) Int)
+(declare-fun expired (Int) Bool)
